@@ -113,7 +113,7 @@ def rd_lines(entries):
         elif k == "ZN":
             lines.append(L(".", n, loc=loc, x=name("b%d" % e["loc"]), xshort=True))
         elif k == "H":
-            lines.append(svcb("H", n, [], 60, 1, 1, loc=loc))
+            lines.append(svcb("H", n, [], 60 + e["loc"], 1, 1, loc=loc))       # distinct per location: no identical records
     return lines
 
 
